@@ -359,9 +359,10 @@ func (state *RuntimeState) webauthnAuthFinish(w http.ResponseWriter, r *http.Req
 
 	// TODO: disinguish better between the two protocols or just use one
 	//metricLogAuthOperation(getClientType(r), proto.AuthTypeU2F, true)
-	state.Mutex.Lock()
-	delete(state.localAuthData, authData.Username)
-	state.Mutex.Unlock()
+	if !state.consumeLoginChallenge(authData.Username, localAuth) {
+		http.Error(w, "challenge missing", http.StatusBadRequest)
+		return
+	}
 
 	//TODO: distinguish here u2f vs webauthn
 	eventNotifier.PublishAuthEvent(eventmon.AuthTypeU2F, authData.Username)
